@@ -37,7 +37,8 @@ META = {
                    "necessary conditions of 'never more than the slot length, portions do not overlap'; the sums "
                    "themselves are runtime quantities and are not decided."
                    " Also: read-modify-write shape of every ledger-lowering write, the order table of the partial-slot re-offer, placement of the final-slot portion by the slot ledger in both scheduling directions, unconditional own-record lookup and the all-paths clamp of the seconds used to the seconds booked."
-                   " Round 3: the ledger survives the per-run preparation of a resource (shared with C12), the amount book() adds to a slot derives from the ledger on every path, and no answer under Project.schedule comes from a lossy memo, a stale attribute slot or a process-level container.",
+                   " Round 3: the ledger survives the per-run preparation of a resource (shared with C12), the amount book() adds to a slot derives from the ledger on every path, and no answer under Project.schedule comes from a lossy memo, a stale attribute slot or a process-level container."
+                   " Round 4: every trace of a booking is written on every path of book() (CFG dominance), the mid-slot reservation is decided by state that does not change between the members of a team.",
     "assumptions": ["a predicate call tested in a branch (available) is stable until the guarded write in the same function"],
 }
 
